@@ -27,6 +27,12 @@ func (l *LQueue[T]) Enqueue(item T) {
 	l.mu.Lock()
 	defer l.mu.Unlock()
 
+	if l.n == 0 {
+		// The queue is empty: the list only holds a leftover node, start over with the new item.
+		l.list = list.InitDList(item)
+		l.n = 1
+		return
+	}
 	l.n++
 	l.list.Append(item)
 }
@@ -37,6 +43,9 @@ func (l *LQueue[T]) Dequeue() (item T) {
 	l.mu.Lock()
 	defer l.mu.Unlock()
 
+	if l.n == 0 {
+		return item
+	}
 	node := l.list.Shift()
 	l.n--
 	return l.list.Val(node)
@@ -47,6 +56,10 @@ func (l *LQueue[T]) Peek() T {
 	l.mu.RLock()
 	defer l.mu.RUnlock()
 
+	if l.n == 0 {
+		var item T
+		return item
+	}
 	return l.list.First()
 }
 
@@ -55,6 +68,9 @@ func (l *LQueue[T]) Search(item T) bool {
 	l.mu.Lock()
 	defer l.mu.Unlock()
 
+	if l.n == 0 {
+		return false
+	}
 	if _, ok := l.list.Find(item); ok {
 		return true
 	}
